@@ -60,6 +60,15 @@ def both_same(a, b):
     return a == b
 
 
+@symbol
+@dataclass(eq=False)
+class FalsyElem(Elem):
+    """An element whose truth value is False (like 0, None or an empty string): still ONE element."""
+
+    def __bool__(self):
+        return False
+
+
 def build_cond(c, p, e):
     k = c[0]
     if k == "PP":       # a predicate with two arguments derived from the same flattened element
@@ -120,7 +129,8 @@ class C16(Case):
     def prepare(self, mk):
         sp = self.spec
         np_, nc = sp.get("parents", 2), sp.get("cands", 3)
-        cands = [Elem(w=mk.int("e%d.w" % j), name="e%d" % j) for j in range(nc)]
+        ecls = FalsyElem if sp.get("falsy_elems") else Elem
+        cands = [ecls(w=mk.int("e%d.w" % j), name="e%d" % j) for j in range(nc)]
         seq = cands + [cands[0]] if sp.get("repeat") else cands   # repeat: one object named twice in a collection
         parents = []
         for i in range(np_):
@@ -283,6 +293,11 @@ def shapes(tier, seed):
     for c in direct:
         for sel, form in sels[:4]:
             out.append(dict(parents=np_, cands=3, cond=c, select=sel, form=form))
+    # elements that are FALSY objects, in collections and as a bare (non-iterable) value
+    for c in (None, ["e>", 1], ["E>", 0]):
+        for sel, form in sels[:3]:
+            out.append(dict(parents=2, cands=2, cond=c, select=sel, form=form, falsy_elems=True))
+            out.append(dict(parents=2, cands=2, cond=c, select=sel, form=form, falsy_elems=True, scalar=True))
     # predicates taking several values of one flattened element
     preds = [["PP", 1], ["PS"], ["PPk", 0], ["and", ["p>", 0], ["PP", 1]], ["or", ["PP", 2], ["p>", 1]]]
     for c in preds:
